@@ -124,6 +124,9 @@ class Builder:
         self.flags = flags
         self.dropped = []
         self.cuts = []            # possessive / atomic constructs: the matcher no longer tries every split
+        self.last_mask = None     # mask of the byte consumed just before the current position, when statically known
+        self.trailing = []        # interior single-class look-aheads after which nothing is consumed (= trailing assertions)
+        self.pending_la = []
         self.groups = {}          # group index -> (subtree, flags)
 
     def icase(self, fl):
@@ -166,11 +169,63 @@ class Builder:
                 self.dropped.append(("ASSERT_NOT", av))
                 i += 1
                 continue
+            if op in (sc.ASSERT, sc.ASSERT_NOT):
+                m = _single_class(av[1], fl)
+                if av[0] == -1 and m is not None and self.last_mask is not None:
+                    # interior look-behind of one class right after a byte whose class is known
+                    inside = self.last_mask & m
+                    sat_all = (inside == 0) if op is sc.ASSERT_NOT else (self.last_mask & ~m == 0)
+                    sat_none = (self.last_mask & ~m == 0) if op is sc.ASSERT_NOT else (inside == 0)
+                    if sat_all:
+                        i += 1
+                        continue
+                    if sat_none:
+                        dead = self.n.new()
+                        cur = dead
+                        i += 1
+                        continue
+                if av[0] == 1 and m is not None:
+                    self.pending_la.append(("in" if op is sc.ASSERT else "notin", m, (str(op), av)))
+                    i += 1
+                    continue
             cur = self.item(op, av, cur, fl)
             i += 1
         return cur
 
     def item(self, op, av, cur, fl):
+        n = self.n
+        if op in (sc.LITERAL, sc.NOT_LITERAL, sc.ANY, sc.IN):
+            if self.pending_la:
+                # something is consumed after an interior look-ahead: not a trailing assertion -> unsupported
+                for _k, _m, raw in self.pending_la:
+                    self.dropped.append(raw)
+                self.pending_la = []
+            cur2 = self._consume(op, av, cur, fl)
+            return cur2
+        if op in (sc.BRANCH, sc.MAX_REPEAT, sc.MIN_REPEAT) or op is getattr(sc, "POSSESSIVE_REPEAT", None):
+            r = self._item(op, av, cur, fl)
+            self.last_mask = None
+            return r
+        return self._item(op, av, cur, fl)
+
+    def _consume(self, op, av, cur, fl):
+        n = self.n
+        if op is sc.LITERAL:
+            m = bit(av) if av < 256 else 0
+            m = casefold(m) if self.icase(fl) else m
+        elif op is sc.NOT_LITERAL:
+            m = bit(av) if av < 256 else 0
+            m = FULL ^ (casefold(m) if self.icase(fl) else m)
+        elif op is sc.ANY:
+            m = FULL if fl & sc.SRE_FLAG_DOTALL else FULL ^ bit(10)
+        else:
+            m = self.charset(av, fl)
+        t = n.new()
+        n.tr[cur].append((m, t))
+        self.last_mask = m
+        return t
+
+    def _item(self, op, av, cur, fl):
         n = self.n
         if op is sc.LITERAL:
             m = bit(av) if av < 256 else 0
@@ -437,6 +492,14 @@ def compile_tree(tree, fl, before="N", after="N", collect_groups=None, edges=Fal
     a = b.n.new()
     e = b.seq(items, a, fl)
     c.dfa = determinize(b.n, a, e, before, after)
+    for kind, m, _raw in b.pending_la:
+        # interior look-ahead after which nothing is consumed: a trailing assertion
+        if c.trail is None:
+            c.trail = (kind, m)
+        elif c.trail[0] == kind == "notin":
+            c.trail = ("notin", c.trail[1] | m)
+        else:
+            b.dropped.append(_raw)
     c.dropped = b.dropped
     c.cuts = list(b.cuts)
     c.groups = b.groups
